@@ -237,6 +237,22 @@ PROPS = {
                      "0 < NUN_ELECTION_TIMEOUT < u128::MAX - 8 (configuration; default 1000)",
                      "the time asleep is an explicit token advanced only by thread::sleep (shim_sleep)"],
     ),
+    "C14": dict(
+        units=["traffic", "outbox"],
+        undecided=["the composition over several nodes: lemma_burst_bounded is proved over a step relation that transcribes the per-step clauses to COUNTS of messages in flight "
+                   "(forwards, copies, acknowledgements); that every real handler step on every node is one of those steps - in particular that the member tables of the "
+                   "nodes describe one cluster with one primary - is read off the contracts, not machine-checked",
+                   "cluster-management traffic (join / leave / election / set-primary / replicate-since): those handlers start elections and synchronisations, whose traffic is "
+                   "bounded by other arguments (C07: an election terminates); the clauses here are about data operations",
+                   "what a full channel does to a line (the log counts attempts), real threads (sequential semantics), the TCP glue that writes a link's channel to its socket",
+                   "create-user / set-permissions forward like set (same closure shape; not extracted here), remove is never forwarded (observed by the family forward)"],
+        assumptions=["every line this node hands to another node's link goes through replicate_if_some (trusted: one try_send per call on the member's channel)",
+                     "set_key_value hands at most one line to the primary's link and none on the primary (ASSUMED contract, by reading: the arbiter branch calls replicate_change "
+                     "once, which unit outbox proves forwards exactly once when the node is neither primary nor starting up); the two open findings are the consequences of "
+                     "exactly that forward, and both are reproduced on the real code by the family traffic",
+                     "iteration over the member table visits every entry once (R8 shim); register_pending_opp is proved in unit pending",
+                     "the session channel has room for the acknowledgement (otherwise the rp handler panics: C10, family flood)"],
+    ),
     "C20": dict(
         units=["http", "outbox"],
         undecided=["the WebSocket transport (ws_ops::on_message pushes queued messages to the socket as they arrive: there is no reply vector to line up)",
